@@ -15,6 +15,9 @@ def t3(rep, tier, seed):
     sws = CG_SWITCHES if tier == "thorough" else [(True, True, False, True), (False, False, False, False), (True, False, True, True), (False, True, True, False), (True, True, True, True), (False, False, False, True)]
     for objname in ("difference", "min-max", "max-min"):
         dom = [{"values": v, "k": k, "obj": objname, "cg": list(sw)} for sw in sws for v in ms + rnd for k in range(1, K + 1)]
+        from props._domains import large_value_variants
+        big = large_value_variants([m for m in H.multisets(5, 8, 4) if len(m) == 5][::9])      # 5 items, sums ~1e7 differing by a few units
+        dom += [{"values": v, "k": k, "obj": objname, "cg": list(sw)} for sw in sws[:2] for v in big for k in (2, 3)]
         rep.add(H.run_case(f"C11/T3/cg[{objname}]/anytime", "prtpy/partitioning/complete_greedy.py::anytime", T.c11_cg_case, dom, bound, chunk=16))
     ms2 = list(H.multisets(N + 1, V))
     dom = [{"values": v, "d": d} for v in ms2 + rnd for d in (None, 1, 2)]
